@@ -130,3 +130,29 @@ package service
 //@   focus all: cur idx seqs wf
 //@   focus range: cur idx seqs wf
 //@   focus asc: cur idx seqs range wf
+
+// ---------------------------------------------------------------------------------------------
+// C11: the session registry. All operations on the key -> session map are closures executed one at a time by the
+// manager goroutine (sessionManager.run); each is specified here as a sequential step on the map and on the reply
+// channel it answers on (ghost state: values sent so far, last value, closed flag).
+// ---------------------------------------------------------------------------------------------
+//@ func (*sessionManager).join$1
+//@   requires C11.map: record != nil && forallkey(k, record, record[k] != nil)
+//@   requires C11.ch: ch != nil && !closed(ch) && vmsg(message)
+//@   ensures C11.answered: sent(ch) == old(sent(ch)) + 1
+//@   ensures C11.refuse: old(has(record, key)) ==> iserr(lastsent(ch), _errKeyExist) && record[key] == old(record[key])
+//@   ensures C11.admit: !old(has(record, key)) ==> lastsent(ch) == nil && has(record, key) && record[key] != nil && fresh(record[key]) && record[key].activeMsgChan == activeChan && record[key].header == message.Header
+//@   ensures C11.others: forallstr(k, !samekey(k, key) ==> has(record, k) == old(has(record, k)) && record[k] == old(record[k]))
+
+//@ func (*sessionManager).leave$1
+//@   requires C11.map: record != nil
+//@   requires C11.ch: ch != nil && !closed(ch)
+//@   ensures C11.freed: !has(record, key) && closed(ch)
+//@   ensures C11.others: forallstr(k, !samekey(k, key) ==> has(record, k) == old(has(record, k)) && record[k] == old(record[k]))
+
+//@ func (*sessionManager).write$1
+//@   requires C11.map: record != nil && forallkey(k, record, record[k] != nil && (record[k].activeMsgChan == nil || !closed(record[k].activeMsgChan)))
+//@   requires C11.ch: replyChan != nil && !closed(replyChan) && activeMsg != nil
+//@   ensures C11.routed: old(has(record, activeMsg.Key)) ==> sent(old(record[activeMsg.Key].activeMsgChan)) == old(sent(record[activeMsg.Key].activeMsgChan)) + 1 && lastsent(old(record[activeMsg.Key].activeMsgChan)) == activeMsg && activeMsg.header == old(record[activeMsg.Key].header) && activeMsg.replyChan == replyChan
+//@   ensures C11.notexist: !old(has(record, activeMsg.Key)) ==> sent(replyChan) == old(sent(replyChan)) + 1 && lastsent(replyChan) != nil && iserr(lastsent(replyChan).ExtensionFields.Err, ErrNotExistKey)
+//@   ensures C11.unchanged: forallstr(k, has(record, k) == old(has(record, k)) && record[k] == old(record[k]))
